@@ -173,6 +173,19 @@ func (e *Engine) VerifyFunc(key string) {
 				b[name] = v
 			}
 		}
+		// function-scope locals
+		if fscope := e.P.Info.Scopes[fi.Decl.Type]; fscope != nil {
+			for _, nm := range fscope.Names() {
+				if v, ok := fscope.Lookup(nm).(*types.Var); ok {
+					if _, has := b[nm]; has {
+						continue
+					}
+					if _, bound := r.st.vars[v]; bound {
+						b[nm] = fx.readVar(r.st, v)
+					}
+				}
+			}
+		}
 		retTag := fmt.Sprintf("ret%d", ri+1)
 		// escaping values and objects written must satisfy their invariants
 		fx.boundaryCheck(r.st, fi.Decl, "exit/"+retTag)
